@@ -418,6 +418,8 @@ def h_m_call(w, st, rec):
     if any(isinstance(a.get(k), list) and a.get(k) for k in ("do", "shift", "noise")):
         m["iv"] = True
     note_probes_call(w, m, rec, out)
+    if rec.get("giant") and out[0] == "ok":
+        w.probes["sample.giant(>=2**20 values)"] += 1
     if pre != post:
         w.violate("argument_modified", site, {"which": [i for i, (x, y) in enumerate(zip(pre, post)) if x != y]})
     if out[0] == "ok":
@@ -968,6 +970,7 @@ def execute(sempler, run_seed, ops, pristine_budget=4):
     gstate = interpreter_state()
     for i, rec in enumerate(ops):
         w.step = i
+        w.client = rec.get("c", 0)
         op = rec["op"]
         try:
             if op in HANDLERS:
@@ -1017,7 +1020,7 @@ def execute(sempler, run_seed, ops, pristine_budget=4):
 
 
 def pristine_eval(sempler, ops):
-    w = World(sempler, 0, PROP)
+    w = World(sempler, 0, PROP, reference=True)
     st = State()
     w.st = st
     res = None
@@ -1564,8 +1567,28 @@ def generate(run_seed, deep=False):
             r2.pop("as_model", None)
             r2.pop("keep", None)
             ops.append(r2)
+    G.bitgen_variation(st["bitgen"], ops)
     np_star_faults(st["np_star"], ops)
+    giant_samples(st["giant"], gs, ops, nclients)
     return cfg, ops
+
+
+def giant_samples(f, gs, ops, nclients):
+    """In about one run in fifty the session ends with two very large unseeded samples (just above 2**20 values) from
+    one long-lived model, both kept by the caller, and one small call after them: a result that has been handed out
+    stays put whatever its size (decided by a stream of its own, after generation)."""
+    r, c = f.random(), f.randrange(nclients)
+    small = sorted(mid for mid, m in gs.models.items() if m["type"] in ("lganm", "anm", "nd") and 1 <= (m.get("p") or 99) <= 4)
+    if r >= 0.02 or not small:
+        return
+    mid = f.choice(small)
+    m = gs.models[mid]
+    n = -(-2 ** 20 // m["p"]) + f.randint(0, 3)
+    args = {"n": n} if m["type"] == "nd" else {"n": n, "do": "omit", "shift": "omit", "noise": "omit"}
+    for i in (1, 2):
+        ops.append({"c": c, "op": "m.call", "m": mid, "method": "sample", "args": dict(args), "seed": None,
+                    "keep": "giant%d" % i, "giant": True})
+    ops.append({"c": c, "op": "m.call", "m": mid, "method": "sample", "args": dict(args, n=2), "seed": None})
 
 
 def np_star_faults(f, ops):
